@@ -17,3 +17,14 @@ def extra_checks(tier, scratch):
     return [grid_astx.check('slots')]
 # C14.pure: the query path stores only to fresh memory and the caller's output vector: C01.pure (World::properties, recorded write-set)
 OBLIGATIONS += [dict(o, id=o['id'].replace('C01.pure', 'C14.pure')) for o in C01.OBLIGATIONS if o['id'] == 'C01.pure']
+
+# C14.pure.models: every model class of the tree (generated harness, see pure_gen.py) queried with arbitrary arguments writes only fresh memory
+import pure_gen
+_path, _ms = pure_gen.generate()
+_TUS = [_path] + T1[1:] + ['objects/surface', 'kd_tree', 'features/feature_utilities', 'objects/distance_from_surface'] + sorted(set(m['tu'] for m in _ms)) \
+       + sorted(set('features/%s_models/%s/interface' % (m['family'], m['kind']) for m in _ms))
+OBLIGATIONS.append(dict(id='C14.pure.models', harness=_path, entry='h_pure_model', mode='fpa', cases=[(i,) for i in range(len(_ms))], expect=['end'], tus=_TUS, native=False, allow_throw=True, slicing=False, time_cap=270,
+    bounds='all %d model classes found under include/world_builder/features/*_models (list regenerated from the tree on every run): %s' % (len(_ms), ', '.join('%s/%s/%s' % (m['family'], m['kind'], m['cls']) for m in _ms)),
+    stubs=['Parameters API stub (every list of length 1, ridge of 2 points)', 'World::properties (recursive queries of the water-content models), calculate_ridge_distance_and_spreading and Surface::local_value return arbitrary values',
+           'arithmetic results abstracted (fpa): only the write-set, memory safety and termination are claimed'],
+    assumes=['random models may write the world\'s random engine (excluded from C14 by the statement)'], outside=['the slab/fault/area feature property functions themselves (C02/C06 harnesses)']))
